@@ -77,6 +77,7 @@ type outcome struct {
 	trace  []string
 	sig    string
 	panics string
+	engine string // machinery problem (never a verdict)
 }
 
 func body(t *testing.T, c *explore.Ctx, pc *world.ProducerChain, nHeights int) (out outcome) {
@@ -380,6 +381,7 @@ func TestCheck(t *testing.T) {
 		"the node runs RetrieveLoop as a bare goroutine, so a panic below it kills the process; the harness recovers the panic only to report it (clause scan-crashes)",
 		"structured junk is derived from the protobuf form of the genuine blobs of the producer chain (populated fields only); junk re-signed with the proposer's own key may legitimately be handed to sync, so for it only crash / stall / delivery of the genuine blobs are judged",
 		"crowded heights: filler blobs are short non-protobuf byte strings; the retrieval batch size is measured from the DA double's call log, not assumed",
+		"restart part: no fetch faults; each genuine blob occurs once on the DA layer; a clean stop is 'all loops have returned, then SaveCache' as in node/full.go (the contents of the sync loop's input channels are not persisted, the store is the same datastore image); the sync loop 'takes an event' = the real SyncLoop runs with exactly that event on its input channel until it is idle again and is then descheduled (SyncLoop keeps no state between iterations besides its tickers, so it is started and cancelled around each event; the harness holds the emitted events in FIFO order per channel in between, which is what the buffered channels do); an item counts as 'sync has it' only if the sync loop took its event in the first life or its block is applied — everything else the rescan owes",
 	}
 	pc, err := world.BuildChain("aeb", 1)
 	if err != nil {
@@ -396,6 +398,7 @@ func TestCheck(t *testing.T) {
 			Backpressure   bool
 			Data           bool
 			Crowded        *crowdedCase
+			Restart        bool
 		}
 		if _, err := r.LoadReplay(&h); err != nil {
 			r.EngineError(err.Error())
@@ -403,6 +406,16 @@ func TestCheck(t *testing.T) {
 			if o := backpressure(t, pc, h.Data); o.fail != nil {
 				r.Report(vf.Violation{Clause: o.fail.Clause, Tags: o.tags, Msg: o.fail.Msg, History: h})
 			}
+		} else if h.Restart {
+			explore.ReplayOne(h.Choices, func(c *explore.Ctx) {
+				o := restartBody(t, c, pc, vf.Pick(r, 3, 4), &r6stats{})
+				if o.engine != "" {
+					r.EngineError(o.engine)
+				} else if o.fail != nil {
+					fmt.Println(o.fail.Msg, o.trace)
+					r.Report(vf.Violation{Clause: o.fail.Clause, Tags: o.tags, Msg: o.fail.Msg, History: h})
+				}
+			})
 		} else if h.Crowded != nil {
 			if o := scanFixed(t, pc, h.Crowded.layout(pc)); o.fail != nil {
 				fmt.Println(o.fail.Msg)
@@ -512,13 +525,20 @@ func TestCheck(t *testing.T) {
 	// part 5: crowded DA heights (more blobs than one retrieval batch)
 	p5 := runCrowded(t, r, pc, vf.Pick(r, 2, 5))
 	caps = append(caps, p5.caps...)
+	// part 6: clean restart with persisted caches in the middle of the scan
+	p6 := runRestart(t, r, pc, vf.Pick(r, 3, 4), vf.Pick(r, 150*time.Second, 18*time.Minute))
+	caps = append(caps, p6.caps...)
+	bounds := map[string]any{"da_heights": nHeights, "budgets": budgets, "junk_blobs": len(junk), "substitution_values_per_position": map[bool]any{true: 255, false: len(subs) + 1}[subs == nil],
+		"structured_k_delete": kDel, "structured_k_keep": kKeep, "structured_source_blocks": p4blocks, "structured_nodes": p4.nodes, "structured_blobs": p4.blobs, "structured_blobs_by_mode": p4.byMode, "structured_scans": p4.runs,
+		"crowded_measured_batch_size": p5.batch, "crowded_batches": p5.batches, "crowded_max_index_of_a_genuine_item": p5.maxIndex, "crowded_max_blobs_at_a_height": p5.maxTotal, "crowded_scans": p5.runs, "crowded_max_fetch_calls_per_listing": p5.maxGets}
+	for k, v := range p6.bounds {
+		bounds[k] = v
+	}
 	r.Finish(vf.Coverage{
-		Evaluations: st.Executions + p2runs + p4.runs + p5.runs, DistinctNontrivial: int64(r.DistinctOutcomes()), States: st.Executions, Transitions: st.Points,
-		Rule:       "part 1: every DA layout (5 content kinds per height) × start height {0,1,3} × every sequence of fetch outcomes (6 per listing call) within the budget, real RetrieveLoop under virtual time; part 3: a genuine blob scanned while the sync loop's input channel is full (back-pressure) must arrive once the channel is drained; part 2: every prefix and single-byte substitution of a genuine header blob and a genuine data blob plus malformed shapes, scanned in batches of 250 next to genuine blobs; part 4: the protobuf forms of a genuine header blob and a genuine data blob with every set of <= k_delete populated fields / sub-messages / repeated-field elements removed (a sub-message removed or left present-but-empty) and every minimal message keeping <= k_keep leaves, each as it is (stale signature), re-signed by a foreign key and re-signed by the proposer's key, scanned in batches of 250 next to genuine blobs, failing batches split down to every single failing blob; a panic of the scan goroutine is the violation scan-crashes; part 5: crowded DA heights: the retrieval batch size b is measured (blob-fetch calls per listing call), then one DA height holds i filler blobs, a genuine header, a genuine data blob and j filler blobs for every i in 0..batches*b+2 and every j that ends the height on a total in {k*b-1..k*b+2} or right after the genuine pair: every genuine item sits on every index of the height incl. b-1, b, b+1, 2b, 2b+1 and must reach sync; distinct = distinct (layout, faults, calls, events) signatures",
+		Evaluations: st.Executions + p2runs + p4.runs + p5.runs + p6.runs, DistinctNontrivial: int64(r.DistinctOutcomes()), States: st.Executions + p6.runs, Transitions: st.Points + p6.points,
+		Rule:       "part 1: every DA layout (5 content kinds per height) × start height {0,1,3} × every sequence of fetch outcomes (6 per listing call) within the budget, real RetrieveLoop under virtual time; part 3: a genuine blob scanned while the sync loop's input channel is full (back-pressure) must arrive once the channel is drained; part 2: every prefix and single-byte substitution of a genuine header blob and a genuine data blob plus malformed shapes, scanned in batches of 250 next to genuine blobs; part 4: the protobuf forms of a genuine header blob and a genuine data blob with every set of <= k_delete populated fields / sub-messages / repeated-field elements removed (a sub-message removed or left present-but-empty) and every minimal message keeping <= k_keep leaves, each as it is (stale signature), re-signed by a foreign key and re-signed by the proposer's key, scanned in batches of 250 next to genuine blobs, failing batches split down to every single failing blob; a panic of the scan goroutine is the violation scan-crashes; part 5: crowded DA heights: the retrieval batch size b is measured (blob-fetch calls per listing call), then one DA height holds i filler blobs, a genuine header, a genuine data blob and j filler blobs for every i in 0..batches*b+2 and every j that ends the height on a total in {k*b-1..k*b+2} or right after the genuine pair: every genuine item sits on every index of the height incl. b-1, b, b+1, 2b, 2b+1 and must reach sync; part 6: clean restart with persisted caches in the middle of the scan: for the configurations (start height in {0,1,3}) x (blocks dealt to the DA heights in ascending / descending order) named in bounds.restart_configurations, every layout of the DA heights over {empty, the next block's genuine blobs, the next two blocks' genuine blobs, junk + the next block's genuine blobs + junk}, EVERY schedule of the first life over {scan the next DA height, the sync loop takes the next header event, the sync loop takes the next data event} (real RetrieveLoop and real SyncLoop of one Manager) and a clean stop (loops cancelled, SaveCache) at EVERY point of every such schedule at which k >= 1 emitted events have not been taken by the sync loop; then NewManager on the same store and the same cache directory (LoadCache), the whole DA layer available, the scan runs again: it must not resume beyond a height holding a genuine item that sync never got, must reach tip+1, must hand over only genuine items, and every genuine item at an examined height that the sync loop has not taken in the first life and whose block is not applied must be handed to sync (again); distinct = distinct (layout, faults, calls, events) signatures resp. (layout, first-life schedule, rescan) signatures",
 		Exhaustive: true, Caps: caps,
-		Bounds: map[string]any{"da_heights": nHeights, "budgets": budgets, "junk_blobs": len(junk), "substitution_values_per_position": map[bool]any{true: 255, false: len(subs) + 1}[subs == nil],
-			"structured_k_delete": kDel, "structured_k_keep": kKeep, "structured_source_blocks": p4blocks, "structured_nodes": p4.nodes, "structured_blobs": p4.blobs, "structured_blobs_by_mode": p4.byMode, "structured_scans": p4.runs,
-			"crowded_measured_batch_size": p5.batch, "crowded_batches": p5.batches, "crowded_max_index_of_a_genuine_item": p5.maxIndex, "crowded_max_blobs_at_a_height": p5.maxTotal, "crowded_scans": p5.runs, "crowded_max_fetch_calls_per_listing": p5.maxGets},
+		Bounds: bounds,
 	})
 }
 
